@@ -33,8 +33,8 @@ from typing import Any, Callable, Iterable
 VERIF = Path(__file__).resolve().parent.parent
 LEAN = VERIF / "lean"
 DRIVER = LEAN / ".lake" / "build" / "bin" / "driver"
-EVIDENCE = VERIF / "evidence"
-REPLAYS = VERIF / "replays"
+EVIDENCE = Path(os.environ.get("VERIF_EVIDENCE_DIR", VERIF / "evidence"))
+REPLAYS = Path(os.environ.get("VERIF_REPLAYS_DIR", VERIF / "replays"))
 CORPUS = VERIF / "corpus"
 FINDINGS = VERIF / "known_findings.json"
 REPO = Path(os.environ.get("VERIF_REPO", "/repo"))
@@ -393,6 +393,13 @@ def match_finding(f: dict, fl: Failure) -> bool:
 # running one check
 # ----------------------------------------------------------------------------------------
 
+def relpath(p: Path) -> str:
+    try:
+        return str(p.relative_to(VERIF))
+    except ValueError:
+        return str(p)
+
+
 def write_replay(prop: str, payload: dict) -> Path:
     REPLAYS.mkdir(exist_ok=True)
     blob = json.dumps(payload, sort_keys=True, default=str)
@@ -452,14 +459,14 @@ def run_check(prop: str, tier: str, seed: int, module) -> int:
             "more": [f.replay for f in fls[1:4]],
             "replay_cmd": f"/venv/bin/python harness/check.py {prop} --replay <this file>",
         })
-        print(f"VIOLATION property={prop} replay={p.relative_to(VERIF)}")
+        print(f"VIOLATION property={prop} replay={relpath(p)}")
         print(f"  {site} / {kind}: {fls[0].desc} ({len(fls)} failing inputs)")
         exit_code = 1
     # 2. proof side broken
     proof_broken = bool(au["bad"] or au["forbidden_hits"])
     if proof_broken:
         p = write_replay(prop, {"property": prop, "broken_obligation": "axiom audit", "bad": au["bad"], "forbidden": au["forbidden_hits"]})
-        print(f"VIOLATION property={prop} replay={p.relative_to(VERIF)} no-failing-input-found")
+        print(f"VIOLATION property={prop} replay={relpath(p)} no-failing-input-found")
         exit_code = 1
     # 3. correspondence broken but no failing input found
     if h.differs and not new_failures:
@@ -470,7 +477,7 @@ def run_check(prop: str, tier: str, seed: int, module) -> int:
             "count": len(h.differs), "more": [vars(x) for x in h.differs[1:4]],
             "note": "model and implementation disagree on this input; no input violating the property was found by the widened search",
         })
-        print(f"VIOLATION property={prop} replay={p.relative_to(VERIF)} no-failing-input-found")
+        print(f"VIOLATION property={prop} replay={relpath(p)} no-failing-input-found")
         print(f"  correspondence differs at {d.site}: impl={d.impl[:200]} model={d.model[:200]} ({len(h.differs)} lines)")
         exit_code = 1
     elif h.differs:
